@@ -399,7 +399,8 @@ static void run_col(char mode, int verify, int rg, int col, char* ops) {
             int16_t* defs = with_def ? malloc(sizeof(int16_t) * (size_t)(k > 0 ? k : 1)) : NULL;
             if (defs) for (long long i = 0; i < (k > 0 ? k : 1); i++) defs[i] = 0x5A5A;
             int nested = (ci.max_def > 1 || ci.max_rep > 0);
-            int16_t* reps = (with_def && ci.max_rep > 0) ? malloc(sizeof(int16_t) * (size_t)(k > 0 ? k : 1)) : NULL;
+            /* flat columns too: the levels handed back for them (all must be 0 where the maximum is 0) are checked below */
+            int16_t* reps = with_def ? malloc(sizeof(int16_t) * (size_t)(k > 0 ? k : 1)) : NULL;
             if (reps) for (long long i = 0; i < (k > 0 ? k : 1); i++) reps[i] = 0x5A5A;
             int64_t ret = carquet_column_read_batch(cr, vals, k, defs, reps);
             printf(" %c%lld", op, (long long)ret);
@@ -424,6 +425,14 @@ static void run_col(char mode, int verify, int rg, int col, char* ops) {
                     if (!present) { putchar('N'); continue; }
                     put_value(&ci, vals + (size_t)dense * ci.vsize);
                     dense++;
+                }
+            }
+            if (ret > 0 && ret <= k && with_def && !nested) {
+                /* a level above its maximum can never be legal: REQUIRED flat column => every definition level 0,
+                   any flat column => every repetition level 0 (printed only when violated) */
+                for (int64_t i = 0; i < ret; i++) {
+                    if (ci.max_def == 0 && defs[i] != 0) { printf("!reqdef[%lld]=%d", (long long)i, (int)defs[i]); break; }
+                    if (reps && reps[i] != 0) { printf("!flatrep[%lld]=%d", (long long)i, (int)reps[i]); break; }
                 }
             }
             free(reps);
